@@ -28,6 +28,13 @@ func vCachePool() []vOp {
 		{q: `{ me { ...F } } fragment F on Human { name }`},
 		{q: `{ me { ...F } } fragment F on Human { phone }`},
 		{q: `query($c: Int = 5) { me { phone(cc: $c) } }`},
+		// one spread name and body, on different types
+		{q: `query($id: ID!) { node(id: $id) { ...F } } fragment F on Human { name }`, vars: func() map[string]interface{} {
+			return map[string]interface{}{"id": []string{"h1", "r1"}[verifChoice("var_id", 2)]}
+		}},
+		{q: `query($id: ID!) { node(id: $id) { ...F } } fragment F on Robot { name }`, vars: func() map[string]interface{} {
+			return map[string]interface{}{"id": []string{"h1", "r1"}[verifChoice("var_id", 2)]}
+		}},
 		// one selection text, different declared types of a variable that sits inside a custom scalar value
 		{q: `query($v: Int) { me { tag(meta: {a: $v}) phone } }`, vars: func() map[string]interface{} { return map[string]interface{}{"v": 3} }},
 		{q: `query($v: String) { me { tag(meta: {a: $v}) phone } }`, vars: func() map[string]interface{} { return map[string]interface{}{"v": "three"} }},
